@@ -146,7 +146,7 @@ def run(ctx: core.Ctx) -> core.Report:
                 "without entries, connection loss, watch / unwatch / watch-all of 4 listeners (one registration slot each, "
                 "wildcard filters) from 3 sources for 3 service instances; message and TTL deadline in one iteration in both "
                 "orders; every step compared with the Lean model; oracle at every idle state; non-trivial = has notifications")
-    stateful.run_scenarios(ctx, rep, make, oracle, ctx.n(80, 1500), "c05")
+    stateful.run_scenarios(ctx, rep, make, oracle, ctx.n(200, 3000), "c05")
     return rep
 
 
